@@ -272,9 +272,9 @@ def indexOf? (l : List String) (n : String) : Option Nat :=
     fields), the instance's own attributes, other class attributes, and — whenever
     that ends in AttributeError — the `__getattr__` fallback. -/
 def pyGetattr2 (k : KEnv) (h : Heap) (cur name : Val) : Acc :=
+  if !(modelled h cur) then .beyond else
   match name with
   | .str n =>
-    if !(modelled h cur) then .beyond else
     let cls := cur.clsName h
     let fb : Acc :=
       match k.findMro cls (·.fallback) with
@@ -305,6 +305,7 @@ def pyGetattr2 (k : KEnv) (h : Heap) (cur name : Val) : Acc :=
 
 /-- glom's `_get_sequence_item(target, index)`: `target[int(index)]` -/
 def pySeqGet2 (k : KEnv) (h : Heap) (cur seg : Val) : Acc :=
+  if !(modelled h cur) then .beyond else
   match pyInt2 k.rt h seg with
   | .ok i => pyGetitem2 k h cur i
   | a => a
